@@ -20,6 +20,15 @@ independent core and EVERY choice of marrow's conversions (`Core`, `Conv` are pa
   record_batch_fields   the batch's schema is the builder's own schema (metadata included), no schema level
                         metadata, the columns are those of `to_arrow`
   from_batch_needs_only_batch   reading a batch back equals reading its columns with the caller's fields
+  builder_reuse_agrees  ONE builder, any history of additions and builds through any mix of the four finishers
+                        (`Backend/History.lean`): build k through finisher f is f applied to the marrow arrays of
+                        build k, the builder keeps its schema and stays usable after a build that failed in a conversion
+  record_batch_schema_stable   every batch a builder ever hands out carries the fields of the schema it was created with
+                        (`Props/C19Reuse.lean`: with the builder model, build k = f applied to the one-shot conversion
+                        of batch k — C10 through every back end)
+  reader_count_mismatch_refused, readers_fail_together_on_counts   a different number of fields and arrays is refused by
+                        the reader constructors of all three families, the adapters' own check first
+                        (`Props/C19Gen.lean`: the bodies of these methods, regenerated from the sources, ARE the model)
   version_select_max    the selected arrow version is the maximum of the enabled ones
   gen_*                 the version tables regenerated from Cargo.toml / build.rs / lib.rs are consistent
                         (`decide` on `SaModel/Generated/ArrowVersions.lean`; these break when a version is
